@@ -2,14 +2,16 @@
 C06 — model of `custom_fdtd_forward` (`fdtdx/fdtd/fdtd.py`) and `ArrayContainer.reset`
 (`fdtdx/fdtd/container.py`).  The loops and `run_fdtd` come from `FdtdxModel/C05.lean`.
 
-Mirrors:
+Mirrors (after the `fix:` commit recorded in props/C06.findings.json):
   ArrayContainer.reset(reset_detector_states=True, reset_recording_state=False):
-        fields            := tree.map(zeros_like)          → every entry becomes the literal 0
-        detector_states   := v * 0  (when the flag is set) → `x * 0`, NOT the literal 0: on binary64 a
-                             non-finite entry stays NaN and a negative one becomes -0.0
-        recording_state   := v * 0  (only when its flag is set and a recording state exists)
+        fields            := tree.map(zeros_like)             → every entry becomes the literal 0
+        detector_states   := zeros_like (when the flag is set) → the literal 0
+        recording_state   := zeros_like (only when its flag is set and a recording state exists)
         everything else (inverse permittivity / permeability, conductivities, dispersive coefficients,
         initial_inv_permittivities) is carried over unchanged                         = `Container.reset`
+  The pinned tree reset detector and recording states with `v * 0` — NOT the literal 0: on binary64 a
+  non-finite entry stays NaN and a negative one becomes -0.0.  That behaviour is kept as `AsFound.reset`
+  (used for the refutation witness and by the `resetasfound` driver op).
   custom_fdtd_forward(arrays, …, reset_container, record_detectors, start_time, end_time):
         optional reset, state = (start_time, arrays),
         while_loop(max_steps = time_steps_total, cond = end_time > t, body = forward(record_detectors))
@@ -44,9 +46,18 @@ def timesZero (l : List α) : List α := l.map (fun v => v * 0)
 /-- `ArrayContainer.reset(reset_detector_states, reset_recording_state)` -/
 def Container.reset (c : Container α) (resetDet : Bool := true) (resetRec : Bool := false) : Container α :=
   { fields := zerosLike c.fields
+    det := if resetDet then zerosLike c.det else c.det
+    recording := if resetRec then c.recording.map zerosLike else c.recording
+    mat := c.mat }
+
+namespace AsFound
+/-- `reset` of the pinned tree: detector and recording states are multiplied by 0 -/
+def reset (c : Container α) (resetDet : Bool := true) (resetRec : Bool := false) : Container α :=
+  { fields := zerosLike c.fields
     det := if resetDet then timesZero c.det else c.det
     recording := if resetRec then c.recording.map timesZero else c.recording
     mat := c.mat }
+end AsFound
 
 end
 
@@ -67,11 +78,27 @@ def showRec : Option (List Float) → String
   | none => "none"
   | some l => "some " ++ showFloats l
 
+def resetOp (asFound : Bool) : List String → String
+  | rd :: rr :: nF :: nD :: nR :: nM :: vs =>
+    match natsOf [rd, rr, nF, nD, nR, nM], floatsOfHex vs with
+    | some [rd, rr, nF, nD, nR, nM], some vs =>
+      if rd > 1 ∨ rr > 1 ∨ vs.length ≠ nF + nD + nR + nM then "bad-op" else
+      let c : Container Float :=
+        { fields := vs.take nF
+          det := (vs.drop nF).take nD
+          recording := if nR = 0 then none else some ((vs.drop (nF + nD)).take nR)
+          mat := vs.drop (nF + nD + nR) }
+      let r := if asFound then AsFound.reset c (rd == 1) (rr == 1) else c.reset (rd == 1) (rr == 1)
+      s!"{showFloats r.fields} | {showFloats r.det} | {showRec r.recording} | {showFloats r.mat}"
+    | _, _ => "bad-op"
+  | _ => "bad-op"
+
 /-- ops:
   `cf T start stop pre reset`  → one custom_fdtd_forward on the logging container (C05.logBody) holding `pre`
                                  earlier entries: `final t | executed steps` (the log keeps the earlier entries
                                  unless reset = 1)
   `hist T a0 a1 … an`          → consecutive partial runs from a reset container: `final t | executed steps`
+  `resetasfound …`             → same arguments as `reset`, the pinned tree's `v*0` behaviour
   `reset rd rr nF nD nR nM v…` → Container.reset with flags rd, rr on nF field, nD detector, nR recording
                                  (nR = 0 with rr… see below) and nM material values (binary64 bit patterns):
                                  `fields | det | recording | mat` as bit patterns; `hasrec` is encoded as nR ≥ 1,
@@ -91,18 +118,8 @@ def handle : List String → String
       | [] => "bad-op"
       | a0 :: _ => showRun (runHistory T logBody pts (a0, ([] : List Nat)))
     | _, _ => "bad-op"
-  | "reset" :: rd :: rr :: nF :: nD :: nR :: nM :: vs =>
-    match natsOf [rd, rr, nF, nD, nR, nM], floatsOfHex vs with
-    | some [rd, rr, nF, nD, nR, nM], some vs =>
-      if rd > 1 ∨ rr > 1 ∨ vs.length ≠ nF + nD + nR + nM then "bad-op" else
-      let c : Container Float :=
-        { fields := vs.take nF
-          det := (vs.drop nF).take nD
-          recording := if nR = 0 then none else some ((vs.drop (nF + nD)).take nR)
-          mat := vs.drop (nF + nD + nR) }
-      let r := c.reset (rd == 1) (rr == 1)
-      s!"{showFloats r.fields} | {showFloats r.det} | {showRec r.recording} | {showFloats r.mat}"
-    | _, _ => "bad-op"
+  | "reset" :: rest => resetOp false rest
+  | "resetasfound" :: rest => resetOp true rest
   | _ => "bad-op"
 
 end Fdtdx.C06
